@@ -1885,7 +1885,9 @@ func (r stack) defaultAssertionHandler(x any) (str string) {
 			// Handle NOTs a little differently
 			// when nested and when not using
 			// symbol operators ...
-			str = ik + ` ` + Xs.String()
+			if str = Xs.String(); len(str) > 0 {
+				str = ik + ` ` + str
+			}
 		} else {
 			str = Xs.String()
 		}
